@@ -102,8 +102,7 @@ class RegularExpressionConversion:
         self._rx = re.compile(regex)
 
     def __call__(self, value):
-        m = self._rx.match(value)
-        if m and m.group() == value:
+        if self._rx.fullmatch(value):
             return value
         else:
             raise ValueError(f"{self.reason}: {repr(value)}")
